@@ -9,6 +9,7 @@ import Iota.Tie.C14
 import Iota.Model.Address
 import Iota.Proofs.Vectors.Hash
 import Iota.Tie.MigrationCode
+import Iota.Tie.AddressCode
 
 namespace Iota.Tie.C19
 open Iota
@@ -31,19 +32,6 @@ theorem migration_constants :
     Gen.Address.migAddressSize = (Migration.addressSize : Int) ∧
     Gen.Address.hashTrytesSize = (Migration.hashTrytesSize : Int) ∧
     Gen.Address.tritsPerTryte = 3 := by decide
-
-theorem src :
-    Gen.Address.src_address_Bech32 = Expect.Address_src_address_Bech32 ∧
-    Gen.Address.src_address_ParseBech32 = Expect.Address_src_address_ParseBech32 ∧
-    Gen.Address.src_address_ParsePrefix = Expect.Address_src_address_ParsePrefix ∧
-    Gen.Address.src_address_Prefix_String = Expect.Address_src_address_Prefix_String ∧
-    Gen.Address.src_address_Ed25519Address_Bytes = Expect.Address_src_address_Ed25519Address_Bytes ∧
-    Gen.Address.src_address_AliasAddress_Bytes = Expect.Address_src_address_AliasAddress_Bytes ∧
-    Gen.Address.src_address_NFTAddress_Bytes = Expect.Address_src_address_NFTAddress_Bytes ∧
-    Gen.Address.src_address_Ed25519Address_Version = Expect.Address_src_address_Ed25519Address_Version ∧
-    Gen.Address.src_address_AliasAddress_Version = Expect.Address_src_address_AliasAddress_Version ∧
-    Gen.Address.src_address_NFTAddress_Version = Expect.Address_src_address_NFTAddress_Version :=
-  ⟨rfl, rfl, rfl, rfl, rfl, rfl, rfl, rfl, rfl, rfl⟩
 
 /-- everything else the package declares (imports, constants, types, variables, build constraints and the functions not
 pinned one by one) is unchanged too: no declaration of the modelled packages can change without a tie theorem failing. -/
@@ -93,5 +81,54 @@ theorem code_migration_encode (sum : List (BitVec 8) → List (BitVec 8)) (H : M
     (hH : ∀ x, sum (bv x) = bv (H x)) (a : List UInt8) (ha : a.length = 32) :
     Gen.Migration.migration.Encode sum (bv a) = some (bv (Migration.encode H a)) :=
   MigrationCode.Encode_eq sum H hH a ha
+
+/-! ### address.go — `ParsePrefix`, `Prefix.String`, `ParseBech32`, `Bech32`, the `Bytes` / `Version` methods of the three
+address types — translated AS CODE = the model (`Gen.AddressCode.address.*` in `Iota/Gen/AddressCode.lean`, stage 11 of the
+translator: named integer types, the read-only table `hrpStrings`, struct values with one array field, and the interface
+`Address` as a CLOSED sum `Go.Iface = Option (Nat × bytes)` over the package's own three implementations; `none` as a
+result = Go run-time panic).  `ParseBech32` and `Bech32` call the generated `bech32.Decode` / `Encode` of stage 6, so the
+only assumptions are that stage's `Externs` (strings.ToLower / ToUpper on ASCII strings, strings.LastIndex).
+Proofs: `Iota/Tie/AddressCode.lean`; end-to-end corollaries on the generated functions alone: `Iota/Tie/E2E/Address.lean`.
+These functions are no longer pinned by source text. -/
+
+open Iota.Tie.Bech32Code (bv)
+open Iota.Tie.Bech32CharsCode (encTable decTable)
+open Iota.Tie.AddressCode (encParse encAddr encEnc)
+
+theorem code_parsePrefix (s : List UInt8) :
+    Gen.AddressCode.address.ParsePrefix (bv s) = some (match Address.parsePrefix s with
+        | some p => (BitVec.ofNat 64 p, none) | none => (0#64, some "ErrInvalidPrefix")) :=
+  AddressCode.code_parsePrefix s
+
+/-- **The Go function `ParseBech32`, translated statement by statement together with the `bech32.Decode` it calls, returns
+for EVERY byte string exactly what the model returns: the prefix index and the address (kind and hash bytes), or the error
+kind — the wrapped Bech32 error with its offset, `ErrInvalidPrefix`, `ErrInvalidVersion`, `ErrInvalidLength`.** -/
+theorem code_parseBech32 (E : Bech32ApiCode.Externs) (s : List UInt8) (hlen : s.length < 2 ^ 63) :
+    Gen.AddressCode.address.ParseBech32 decTable E.lastIndex E.toLower E.toUpper (bv s) = some (encParse (Address.parseBech32 s)) :=
+  AddressCode.code_parseBech32 E s hlen
+
+/-- **`ParseBech32` never panics, whatever the input** (the property's words; until stage 11 this was an observation of the
+correspondence run): every byte list shorter than 2^63. -/
+theorem code_parseBech32_never_panics (E : Bech32ApiCode.Externs) (l : List (BitVec 8)) (hlen : l.length < 2 ^ 63) :
+    Gen.AddressCode.address.ParseBech32 decTable E.lastIndex E.toLower E.toUpper l ≠ none :=
+  AddressCode.code_parseBech32_never_panics_bits E l hlen
+
+/-- the three `Bytes()` methods behind the interface: version byte, then the hash -/
+theorem code_bytes (a : Address.Addr) : Gen.AddressCode.address.Address_Bytes (encAddr a) = some (bv a.bytes) :=
+  AddressCode.code_bytes a
+
+theorem code_version (a : Address.Addr) :
+    Gen.AddressCode.address.Address_Version (encAddr a) = some a.kind.version.toBitVec := AddressCode.code_version a
+
+/-- **`Bech32(hrp, addr)` as code = the model, for the four `Prefix` constants and every address of the three kinds** (any
+hash length the encoder admits); it panics for a `Prefix` value outside 0…3 (`hrpStrings[p]`) and for a nil `Address`. -/
+theorem code_bech32 (E : Bech32ApiCode.Externs) (p : Nat) (hp : p < 4) (a : Address.Addr) (hl : a.hash.length + 1 < 2 ^ 60) :
+    Gen.AddressCode.address.Bech32 encTable E.toLower E.toUpper (BitVec.ofNat 64 p) (encAddr a) =
+      some (encEnc (Address.bech32 p a)) :=
+  AddressCode.code_bech32_gen E p hp a hl
+
+theorem code_bech32_panics (ce : List (BitVec 8)) (tl tu : List (BitVec 8) → List (BitVec 8)) (hrp : BitVec 64)
+    (h : hrp.toInt < 0 ∨ 4 ≤ hrp.toInt) (addr : Go.Iface) :
+    Gen.AddressCode.address.Bech32 ce tl tu hrp addr = none := AddressCode.code_bech32_panics ce tl tu hrp h addr
 
 end Iota.Tie.C19
